@@ -346,6 +346,13 @@ var Faults = []Fault{
 			return false
 		}
 		s.sel().Sel = []*m.Sel{{Kind: m.SField, Name: c.R.Pick("x", "__typename")}}
+		if c.R.Chance(1, 3) {
+			// ... through an inline fragment without a type condition (with or without a directive)
+			s.sel().Sel = []*m.Sel{{Kind: m.SInline, Sel: s.sel().Sel}}
+			if c.R.Bool() {
+				s.sel().Sel[0].Dirs = []m.Dir{{Name: "include", Args: []m.Arg{{Name: "if", Value: val(m.VBool, "true")}}}}
+			}
+		}
 		return true
 	}},
 	{"no-selection-on-composite", "ScalarLeafs", func(c *FCtx) bool {
@@ -383,8 +390,20 @@ var Faults = []Fault{
 		if !ok {
 			return false
 		}
-		a := s.sel().Args[c.R.Intn(len(s.sel().Args))]
+		args := s.sel().Args
+		a := args[c.R.Intn(len(args))]
 		s.sel().Args = append(s.sel().Args, m.Arg{Name: a.Name, Value: cloneValue(a.Value)})
+		if len(args) >= 2 && c.R.Chance(1, 2) {
+			// a second, different name repeated as well (several errors from one argument list)
+			for _, b := range args {
+				if b.Name != a.Name {
+					at := c.R.Intn(len(s.sel().Args) + 1)
+					dup := m.Arg{Name: b.Name, Value: cloneValue(b.Value)}
+					s.sel().Args = append(s.sel().Args[:at], append([]m.Arg{dup}, s.sel().Args[at:]...)...)
+					break
+				}
+			}
+		}
 		return true
 	}},
 	{"missing-required-argument", "ProvidedRequiredArguments", func(c *FCtx) bool {
